@@ -435,6 +435,8 @@ pub fn sites(tier: Tier) -> Vec<Site> {
                 }
             }));
     }
+    // MSO built through the typed API with names of every length and code-page class (the frame must decode again)
+    sites.push(super::c01::mso_name_text_site("C03"));
     // ... nor between threads: histories of 2 and 3 encodes spread over two threads (refused packets among them)
     {
         let mut corpus: Vec<(String, (bool, Packet))> = vec![];
